@@ -836,6 +836,112 @@ def ninja_part(chk, drv_asan):
     chk.cov["ninja_manifests"]["cli_runs"] = len(pick)
     chk.count(None, len(pick))
 
+# ------------------------------------------------------------------ include / subninja graphs on a real directory tree with links
+
+LINK_TIMEOUT = 2        # seconds: every graph below is diagnosed in milliseconds when re-entering a file is recognised
+LINK_CONFIRM = 6        # a graph that misses the deadline is run once more, alone, with this one (a loaded machine is not a finding)
+
+def materialize(d, tree):
+    """tree: name -> bytes | ["symlink", target] | ["hardlink", source name] | ["dir"]; "@DIR@" in file contents and link targets
+    stands for the base name of d, "@ABS@" for its absolute path."""
+    os.makedirs(d, exist_ok=True)
+    base = os.path.basename(d)
+    def sub(x):
+        return x.replace("@DIR@", base).replace("@ABS@", d)
+    later = []
+    for name, v in tree.items():
+        p = os.path.join(d, name)
+        os.makedirs(os.path.dirname(p), exist_ok=True)
+        if isinstance(v, (bytes, bytearray)):
+            open(p, "wb").write(v.replace(b"@DIR@", base.encode()).replace(b"@ABS@", d.encode()))
+        elif v[0] == "dir":
+            os.makedirs(p, exist_ok=True)
+        else:
+            later.append((p, v))
+    for p, v in later:
+        if v[0] == "symlink":
+            os.symlink(sub(v[1]), p)
+        else:
+            os.link(os.path.join(d, v[1]), p)
+
+def tree_json(tree):
+    return {k: (v.hex() if isinstance(v, (bytes, bytearray)) else list(v)) for k, v in tree.items()}
+
+def tree_unjson(j):
+    return {k: (bytes.fromhex(v) if isinstance(v, str) else list(v)) for k, v in j.items()}
+
+def link_graphs():
+    """(key, tree) with main file build.ninja; every graph re-enters a file that is still being loaded, twice per level."""
+    out = []
+    for kw in (b"include", b"subninja"):
+        k = kw.decode()
+        two = lambda path: kw + b" " + path + b"\n" + kw + b" " + path + b"\n"
+        out.append(("%s:self" % k, {"build.ninja": two(b"build.ninja")}))
+        out.append(("%s:self-dot" % k, {"build.ninja": two(b"./build.ninja")}))
+        out.append(("%s:self-dotdot" % k, {"build.ninja": two(b"x/../build.ninja"), "x": ["dir"]}))
+        out.append(("%s:self-absolute" % k, {"build.ninja": two(b"@ABS@/build.ninja")}))
+        out.append(("%s:mutual" % k, {"build.ninja": two(b"other.ninja"), "other.ninja": two(b"build.ninja")}))
+        out.append(("%s:three-cycle" % k, {"build.ninja": two(b"b.ninja"), "b.ninja": two(b"c.ninja"), "c.ninja": two(b"build.ninja")}))
+        # the same file under an ever longer name: directory link to itself, prefix grows by one "d/" per level
+        out.append(("%s:dirlink-self-growing" % k, {"build.ninja": b"p = ${p}d/\n" + two(b"${p}build.ninja"), "d": ["symlink", "."]}))
+        out.append(("%s:dirlink-absolute-growing" % k, {"build.ninja": b"p = ${p}d/\n" + two(b"${p}build.ninja"), "d": ["symlink", "@ABS@"]}))
+        out.append(("%s:dirlink-parent-growing" % k, {"build.ninja": b"p = ${p}sub/up/\n" + two(b"${p}build.ninja"), "sub": ["dir"], "sub/up": ["symlink", ".."]}))
+        out.append(("%s:dirlink-pair-growing" % k, {"build.ninja": b"p = ${p}a/b/\n" + two(b"${p}build.ninja"), "a": ["dir"], "a/b": ["symlink", ".."]}))
+        out.append(("%s:dotdot-dirname-growing" % k, {"build.ninja": b"p = ${p}../@DIR@/\n" + two(b"${p}build.ninja")}))
+        # through a linked copy of the file
+        out.append(("%s:symlinked-copy" % k, {"build.ninja": two(b"copy.ninja"), "copy.ninja": ["symlink", "build.ninja"]}))
+        out.append(("%s:hardlinked-copy" % k, {"build.ninja": two(b"copy.ninja"), "copy.ninja": ["hardlink", "build.ninja"]}))
+        for kind in ("symlink", "hardlink"):
+            t = {"build.ninja": b"n = ${n}1\n" + two(b"l${n}.ninja")}
+            for depth in range(1, 41):
+                t["l" + "1" * depth + ".ninja"] = [kind, "build.ninja"]
+            out.append(("%s:%s-chain-40" % (k, kind), t))
+        out.append(("%s:symlink-to-symlink-chain" % k, dict([("build.ninja", b"n = ${n}1\n" + two(b"l${n}.ninja")), ("l1.ninja", ["symlink", "build.ninja"])] +
+                                                            [("l" + "1" * dpt + ".ninja", ["symlink", "l" + "1" * (dpt - 1) + ".ninja"]) for dpt in range(2, 31)])))
+    return out
+
+def ninja_links_part(chk, drv_asan):
+    ldir = os.path.join(TMP, "l")
+    shutil.rmtree(ldir, ignore_errors=True)
+    graphs = link_graphs()
+    stats = dict(graphs=len(graphs), diagnosed=0, missed_deadline_once=0, errors=0, files_read=0)
+    hangs = 0
+    for i, (key, tree) in enumerate(graphs):
+        d = os.path.join(ldir, "g%d" % i)
+        materialize(d, tree)
+        p = os.path.join(d, "build.ninja")
+        rp = dict(case="links:" + key, tree=tree_json(tree), main="build.ninja", file=p, timeout_s=LINK_TIMEOUT,
+                  reproduce="recreate the tree (name -> hex contents | [symlink, target] | [hardlink, source] | [dir]; @DIR@ = directory name, @ABS@ = its absolute path); "
+                            "cd DIR && timeout %d llbuild ninja load-manifest build.ninja   (or: %s <<< 'ninja_load <hex of DIR/build.ninja>')" % (LINK_CONFIRM, drv_asan))
+        (st, ans), = run_batch(drv_asan, ["ninja_load " + hx(p.encode())], env=ASAN_ENV, per_timeout=LINK_TIMEOUT)
+        if st == "hang" and hangs == 0:
+            stats["missed_deadline_once"] += 1
+            (st, ans), = run_batch(drv_asan, ["ninja_load " + hx(p.encode())], env=ASAN_ENV, per_timeout=LINK_CONFIRM)
+        chk.count(("nj-links", key, st))
+        if st == "hang":
+            hangs += 1
+            chk.violation("ninja-load-does-not-terminate",
+                          "loading a Ninja manifest that re-enters a file still being loaded (graph %s, two inclusions per level) does not return within %d s: "
+                          "the recursion is not diagnosed and the work doubles with every level" % (key, LINK_CONFIRM),
+                          dict(rp, outcome=ans), found_input=True, broken="c19 oracle on implementation (ninja::ManifestLoader terminates on include graphs with links)")
+            if hangs >= 3:
+                chk.notes["link_graphs_not_run"] = len(graphs) - i - 1
+                break
+            continue
+        if st != "ok":
+            chk.violation("ninja-load-%s" % ans.get("kind"), "loading a Ninja manifest ends in %s instead of an error callback (graph %s)" % (ans.get("kind"), key),
+                          dict(rp, outcome=ans), found_input=True, broken="c19 oracle on implementation (ninja::ManifestLoader, exact-size buffers)")
+            continue
+        f = ans.split(" ")
+        if len(f) >= 4 and f[0] in ("OK", "NULL"):
+            stats["errors"] += int(f[2]); stats["files_read"] += int(f[3])
+            if int(f[2]) >= 1:
+                stats["diagnosed"] += 1
+            else:
+                chk.violation("ninja-recursive-include-unreported", "a manifest that includes itself (graph %s) loads without any error callback" % key,
+                              dict(rp, answer=ans), found_input=True, broken="c19 oracle on implementation (problems reported through the error callback)")
+    chk.cov["ninja_link_graphs"] = stats
+
 # ------------------------------------------------------------------ parts owned by other areas
 
 def other_parts(chk):
@@ -893,6 +999,7 @@ def run_parts(chk):
     chk.proof_gate()
     bfile_part(chk, drv, drv_asan, model)
     ninja_part(chk, drv_asan)
+    ninja_links_part(chk, drv_asan)
     other_parts(chk)
     chk.assumptions = ["the build-description loader is given what llvm's YAML parser delivers for the file (the scanner is exercised under ASan/UBSan, not modelled)",
                        "delegate decisions (tool lookup, attribute acceptance, client configuration, ownership analysis) are abstract in the model; the differential uses the accept-everything delegate of `llbuild buildsystem parse`",
@@ -902,6 +1009,7 @@ def run_parts(chk):
                       rule="build descriptions: every selection/order/duplication of up to 3 sections, every section / entry / attribute key and value of every node kind, every built-in tool x attribute name x value shape, "
                            "multi-document streams, nesting 120 deep, long and non-UTF-8 scalars, random subtree mutations, hand-written anchors/aliases/tags/block-scalar/malformed texts, every truncation and random edits of two documents; "
                            "each through the real YAML parser -> model and through BuildFile::load / BuildSystem::loadDescription under ASan+UBSan. non-trivial = distinct (outcome, error-code list, counts) of the real loader. "
+                           "include graphs: self / mutual / 3-cycle includes and subninjas, and the same file re-entered under ever longer names through directory links (d -> ., absolute, parent), ../<dir>/, chains of 40 symbolic and hard links, all with fan-out 2, on a real directory tree, deadline 2 s. "
                            "manifests: corpus of self/mutual includes and self-referential variables, every truncation of 3 seed manifests, dictionary/byte mutants, random bytes, in exact-size unterminated heap buffers under ASan; "
                            "non-trivial = distinct (commands, errors?, first message)",
                       trusted=["hand-written model coq/Parse/BuildFileRoot.v tied by correspondence on the trees the real YAML parser produces", "llvm YAML scanner exercised, not modelled",
@@ -915,6 +1023,15 @@ def replay(chk, rp):
     shutil.rmtree(d, ignore_errors=True)
     os.makedirs(d)
     key = rp.get("finding_key", "")
+    if rp.get("tree"):
+        materialize(d, tree_unjson(rp["tree"]))
+        p = os.path.join(d, rp.get("main", "build.ninja"))
+        (st, ans), = run_batch(drv_asan, ["ninja_load " + hx(p.encode())], env=ASAN_ENV, per_timeout=LINK_CONFIRM)
+        print("ninja_load:", st, ans)
+        if st != "ok":
+            chk.violation(key or "ninja-load-does-not-terminate", rp.get("what", "replayed include graph still fails"), dict(rp, outcome=ans), found_input=True, broken=rp.get("broken"))
+        chk.count(("replay", key))
+        return run(chk)
     if rp.get("files"):
         for fn, h in rp["files"].items():
             open(os.path.join(d, fn), "wb").write(bytes.fromhex(h))
